@@ -4,6 +4,7 @@ SPECIFICATION Spec
 CONSTANTS
   MaxLen = 4
   ExtraNames <- DeepNames
+  RejectSpecialParts = FALSE
   Deviations <- AllClasses
 INVARIANT TypeOK
 INVARIANT Confined
